@@ -963,6 +963,19 @@ func c12Tool(args []string) int {
 	} else {
 		sb.WriteString("def idCounterInit : Option Nat := none\n\n")
 	}
+	lt, err := c12LiteralTids()
+	if err != nil {
+		lt = []string{"extraction failed"}
+	}
+	sb.WriteString("/-- calls that evaluate ECAL code with an integer literal as thread id (function:literal) -/\n")
+	sb.WriteString("def literalTids : List String := [")
+	for i, x := range lt {
+		if i > 0 {
+			sb.WriteString(", ")
+		}
+		sb.WriteString(fmt.Sprintf("%q", x))
+	}
+	sb.WriteString("]\n\n")
 	sb.WriteString("end Ecal.Gen.C12\n")
 	if len(args) > 1 {
 		if err := os.WriteFile(args[1], []byte(sb.String()), 0644); err != nil {
